@@ -6,6 +6,7 @@ package gen
 import (
 	"fmt"
 	"math/rand"
+	"strconv"
 	"strings"
 )
 
@@ -64,16 +65,16 @@ var (
 	EditModPaths = []string{"example.com/a", "example.com/b", "example.com/c/v2", "gopkg.in/d.v1", "golang.org/x/e", "x.io/f/g"}
 	// includes pairs that are equal under semver.Compare but different strings
 	// (vX.Y.Z and vX.Y.Z+incompatible are both canonical and valid for these paths)
-	editV1       = []string{"v1.0.0", "v1.2.3", "v1.10.0", "v1.9.0", "v0.0.0-20200101000000-abcdefabcdef", "v1.0.0-rc.1", "v2.0.0+incompatible", "v0.3.0", "v1.2.3+incompatible", "v1.0.0+incompatible"}
-	editV2       = []string{"v2.0.0", "v2.1.0", "v2.10.0", "v2.9.0-pre"}
-	editVGopkg   = []string{"v1.0.0", "v1.2.3", "v1.10.0", "v1.9.0"}
-	editGoVers   = []string{"1.16", "1.20", "1.20.5", "1.21", "1.21.0", "1.22rc1", "1.23.1", "1.9", "1.21rc1", "1.100", "1.23beta2", "1.22.0rc1"}
-	editTool     = []string{"go1.21.0", "default", "go1.22.3-custom", "go1"}
-	editDbgKeys  = []string{"panicnil", "http2client", "asynctimerchan", "x"}
-	editDbgVals  = []string{"0", "1", "2"}
-	editTools    = []string{"example.com/a/cmd/t", "example.com/b/tool", "x.io/f/g/cmd", "example.com/a"}
-	editDirs     = []string{"./local", "../up/x", "/abs/y", "./sp ace", "."}
-	editUseDirs  = []string{"./a", "./b", "../c", "/abs/d", "./with space", "./e/f"}
+	editV1                = []string{"v1.0.0", "v1.2.3", "v1.10.0", "v1.9.0", "v0.0.0-20200101000000-abcdefabcdef", "v1.0.0-rc.1", "v2.0.0+incompatible", "v0.3.0", "v1.2.3+incompatible", "v1.0.0+incompatible"}
+	editV2                = []string{"v2.0.0", "v2.1.0", "v2.10.0", "v2.9.0-pre"}
+	editVGopkg            = []string{"v1.0.0", "v1.2.3", "v1.10.0", "v1.9.0"}
+	editGoVers            = []string{"1.16", "1.20", "1.20.5", "1.21", "1.21.0", "1.22rc1", "1.23.1", "1.9", "1.21rc1", "1.100", "1.23beta2", "1.22.0rc1"}
+	editTool              = []string{"go1.21.0", "default", "go1.22.3-custom", "go1"}
+	editDbgKeys           = []string{"panicnil", "http2client", "asynctimerchan", "x"}
+	editDbgVals           = []string{"0", "1", "2"}
+	editTools             = []string{"example.com/a/cmd/t", "example.com/b/tool", "x.io/f/g/cmd", "example.com/a"}
+	editDirs              = []string{"./local", "../up/x", "/abs/y", "./sp ace", "."}
+	editUseDirs           = []string{"./a", "./b", "../c", "/abs/d", "./with space", "./e/f"}
 	editModPathsForModule = []string{"example.com/m", "example.com/m/v2", "example.com/dep recated"}
 )
 
@@ -86,6 +87,50 @@ func EditVersionFor(r *rand.Rand, path string) string {
 		return pick(r, editVGopkg...)
 	}
 	return pick(r, editV1...)
+}
+
+// directory-like arguments that AutoQuote has to quote: "//" or "/*" in the middle or at the
+// very END of the string, plus everything gen.HostileDir produces (one trigger per MustQuote
+// branch)
+var editHostileFixed = []string{"./b//", "../forks/*", "./tools//gen", "../x//", "./a/*b", "/abs//", "./x/*", "./p//q//", "../up/**/"}
+
+func hostileDir(r *rand.Rand) string {
+	if r.Intn(2) == 0 {
+		return pick(r, editHostileFixed...)
+	}
+	return HostileDir(r)
+}
+
+// useDir / replDir: a directory argument, one time in six a hostile one
+func useDir(r *rand.Rand) string {
+	if r.Intn(6) == 0 {
+		return hostileDir(r)
+	}
+	return pick(r, editUseDirs...)
+}
+
+func replDir(r *rand.Rand) string {
+	if r.Intn(5) == 0 {
+		return hostileDir(r)
+	}
+	return pick(r, editDirs...)
+}
+
+func presentUse(r *rand.Rand, pool []string) string {
+	if len(pool) > 0 && r.Intn(10) < 7 {
+		return pool[r.Intn(len(pool))]
+	}
+	return useDir(r)
+}
+
+// fileTok writes a directory in a starting file: bare when that is safe, quoted otherwise
+func fileTok(d string) string {
+	for _, p := range append(append([]string(nil), editDirs...), editUseDirs...) {
+		if d == p && !strings.Contains(d, " ") {
+			return d
+		}
+	}
+	return strconv.Quote(d)
 }
 
 type tagger struct{ n int }
@@ -204,11 +249,7 @@ func editReplaceBody(r *rand.Rand) string {
 	}
 	s += " => "
 	if r.Intn(3) == 0 {
-		d := pick(r, editDirs...)
-		if strings.Contains(d, " ") {
-			d = `"` + d + `"`
-		}
-		s += d
+		s += fileTok(replDir(r))
 	} else {
 		np := pick(r, EditModPaths...)
 		s += np + " " + EditVersionFor(r, np)
@@ -332,11 +373,7 @@ func EditGoWork(r *rand.Rand) string {
 			var body string
 			switch verb {
 			case "use":
-				d := pick(r, editUseDirs...)
-				if strings.Contains(d, " ") {
-					d = `"` + d + `"`
-				}
-				body = d
+				body = fileTok(useDir(r))
 			case "replace":
 				body = editReplaceBody(r)
 			case "godebug":
@@ -544,7 +581,7 @@ func editAddReplace(r *rand.Rand, k *EditKeys, name string) []EditOp {
 	}
 	var np, nv string
 	if r.Intn(3) == 0 {
-		np = pick(r, editDirs...)
+		np = replDir(r)
 	} else {
 		np = pick(r, EditModPaths...)
 		nv = EditVersionFor(r, np)
@@ -579,11 +616,11 @@ func EditOpWork(r *rand.Rand, k *EditKeys, allowBad bool) []EditOp {
 	case c < 32:
 		return one("WDropGodebug", present(r, k.Godebugs, editDbgKeys))
 	case c < 44:
-		p := present(r, k.Uses, editUseDirs)
+		p := presentUse(r, k.Uses)
 		k.Uses = append(k.Uses, p)
 		return one("WAddUse", p, pick(r, "", "example.com/used"))
 	case c < 50:
-		p := present(r, k.Uses, editUseDirs)
+		p := presentUse(r, k.Uses)
 		k.Uses = append(k.Uses, p)
 		return one("WAddNewUse", p, pick(r, "", "example.com/used"))
 	case c < 62:
@@ -595,7 +632,7 @@ func EditOpWork(r *rand.Rand, k *EditKeys, allowBad bool) []EditOp {
 		seen := map[string]bool{}
 		reqs := []ReqArg{}
 		for i := 0; i < n; i++ {
-			p := present(r, k.Uses, editUseDirs)
+			p := presentUse(r, k.Uses)
 			if seen[p] {
 				continue
 			}
@@ -604,7 +641,7 @@ func EditOpWork(r *rand.Rand, k *EditKeys, allowBad bool) []EditOp {
 		}
 		return append(ops, EditOp{Name: "WSetUse", Reqs: reqs})
 	case c < 68:
-		return one("WDropUse", present(r, k.Uses, editUseDirs))
+		return one("WDropUse", presentUse(r, k.Uses))
 	case c < 80:
 		return editAddReplace(r, k, "WAddReplace")
 	case c < 85:
